@@ -239,7 +239,7 @@ func cmdCheck(args []string) int {
 	kfs := loadKnownFindings()
 	unclaimed := loadUnclaimed()
 	lock := loadLock()
-	timeoutS := 10
+	timeoutS := 20
 	all := false
 	if *tier == "thorough" {
 		timeoutS = 60
